@@ -7,3 +7,7 @@ import "bytes"
 func verifPoolGet(*bufferPool, *bytes.Buffer) {}
 
 func verifPoolPut(*bufferPool, *bytes.Buffer) {}
+
+func verifCodecGet(*compressionPool, any) {}
+
+func verifCodecPut(*compressionPool, any) {}
